@@ -6,6 +6,8 @@ Streams
   model-vs-real      every real block (built with py4hw, observed through Wire.get() after propagateAll()/clk()) vs the
                      hand-written functional model Lib.* run by Drv/C08.lean  (exhaustive inputs for small parameters, sampled wide)
   legal-vs-raises    constructor raises  <=>  the model's ...Legal predicate is false
+  history-dependence the same instance driven through other orders of the same vectors gives other outputs (outside the spec domain;
+                     inside it this is a failing input)
   pyspec-vs-leanspec the Python transcription of the SPECIFICATION (used as fallback oracle when the Lean side does not build)
                      vs the Lean specification functions Lib.LSpec.* evaluated by the driver
   net-sim            flattened netlist of the real block, every wire, vs Net.IR running the generated leaves
@@ -31,6 +33,15 @@ C08.selectDefault_spec C08.priorityEncoder_inc_spec C08.priorityEncoder_dec_spec
 C08.swap_spec
 C08.equal_spec C08.equalConstant_spec C08.equalConstant_wrap C08.notEqualConstant_spec C08.anyEqual_spec C08.comparator_spec
 C08.comparatorSU_spec C08.max2_spec C08.min2_spec C08.signedMax2_spec C08.signedMin2_spec
+C08.sumOfMinterms_wrap C08.sumOfMintermsWrap_congr C08.sumOfMintermsWrap_in_range C08.sumOfMinterms_complement
+C08.priorityEncoder_general C08.priorityEncoder_spec_of_le C08.minterm_wide C08.equalConstant_wide C08.equalConstantW_one
+C08.notEqualConstant_wide C08.equal_wide C08.comparator_wide
+C08.sumOfMinterms_out_of_range_counterexample C08.priorityEncoder_narrow_first_counterexample C08.equal_wide_counterexample
+C08.andN_spec_of_legal C08.orN_spec_of_legal C08.norN_spec_of_legal C08.xorN_spec_of_legal C08.concatMSBF_spec_of_legal
+C08.concatLSBF_spec_of_legal C08.bufEnable_spec_of_legal C08.andBits_spec_of_legal C08.orBits_spec_of_legal C08.muxLegal_iff
+C08.mux_spec_of_legal C08.demux_spec_of_legal C08.decoder_spec_of_legal C08.select_spec_of_legal C08.sumOfMinterms_wrap_of_legal
+C08.equalConstant_wide_of_legal C08.equal_wide_of_legal C08.comparator_wide_of_legal C08.comparatorSU_spec_of_legal
+C08.mux_zero_select_counterexample
 C08.xor2_val C08.xor2_wide_fixed C08.norN_wide_fixed C08.nor2_wide_fixed C08.equalConstant_out_of_range_counterexample C08.priorityEncoder_docstring_counterexample
 """
 
@@ -112,12 +123,28 @@ def _sel_split(P, X):
 
 
 def _prio(P, X):
-    w, inc = P[0], P[2] == 1
+    w, inc = P[1], P[2] == 1
     out = []
     for i in range(len(X)):
         higher = X[i + 1:] if inc else X[:i]
         out.append(_bitfn(w, lambda k: tb(X[i], k) and all(not tb(h, k) for h in higher)))
     return out
+
+
+def _prioW(P, X):
+    """LSpec.priorityEncoderW: helper wires are lw bits wide, outputs rw bits: the most prioritised input is copied, every other
+    output keeps bit k only for k < lw and when no higher-priority input has it"""
+    lw, rw, inc = P[0], P[1], P[2] == 1
+    out = []
+    for i in range(len(X)):
+        higher = X[i + 1:] if inc else X[:i]
+        out.append(_bitfn(rw, lambda k: tb(X[i], k) and (not higher or (k < lw and all(not tb(h, k) for h in higher)))))
+    return out
+
+
+def _eqcwrap(aw, a, v):
+    """LSpec.equalConstantWrap"""
+    return (int(a == 0) if v == 0 else int(a == 1)) if aw == 1 else int(a == v % (1 << aw))
 
 
 def _first_active(sels, ins, d, rw):
@@ -165,11 +192,20 @@ SPEC = {
                     lambda P, X: [(X[0] & M(P[0]) & M(ow)) if s == 1 else 0 for s, ow in zip(X[1:], P[2:])]),
     'SelectDefault': (lambda P, X: True,
                       lambda P, X: [_first_active(X[:P[1]], X[P[1]:P[1] + P[2]], X[P[1] + P[2]], P[0])]),
-    'PriorityEncoder': (lambda P, X: P[0] == P[1] and all(x <= M(P[0]) for x in X), _prio),
+    'PriorityEncoder': (lambda P, X: P[1] <= P[0], _prio),      # outputs not wider than the most prioritised input; any inputs
+    'PriorityEncoderW': (lambda P, X: True, _prioW),            # every mix of widths (C08.priorityEncoder_general)
     'Minterm': (lambda P, X: P[0] >= 1 and all(x < 2 for x in X),
                 lambda P, X: [int(all((X[i] == 1) == (((P[1] >> i) & 1) == 1) for i in range(len(X))))]),
     'SumOfMinterms': (lambda P, X: P[1] >= 1 and X[0] <= M(P[0]) and all(0 <= m <= M(P[0]) for m in P[2:]),
                       lambda P, X: [int(any(X[0] == m for m in P[2:]))]),
+    # exact characterisations outside the documented domain (Lib.LSpec.*W / *Wrap, C08.*_wide / *_wrap theorems)
+    'SumOfMintermsWrap': (lambda P, X: P[1] >= 1 and X[0] <= M(P[0]), lambda P, X: [int(any(X[0] == m % (1 << P[0]) for m in P[2:]))]),
+    'EqualConstantW': (lambda P, X: X[0] <= M(P[0]),
+                       lambda P, X: [(~X[0] & M(P[1])) if P[0] == 1 and P[2] == 0 else _eqcwrap(P[0], X[0], P[2]) & M(P[1])]),
+    'NotEqualConstantW': (lambda P, X: X[0] <= M(P[0]), lambda P, X: [~_eqcwrap(P[0], X[0], P[2]) & M(P[1])]),
+    'EqualW': (lambda P, X: all(x <= M(P[0]) for x in X) and X[1] <= M(P[1]), lambda P, X: [~int(X[0] != X[1]) & M(P[2])]),
+    'ComparatorW': (lambda P, X: P[2] >= 1 and all(x <= M(P[0]) for x in X),
+                    lambda P, X: [int(X[0] > X[1]) & M(P[1]), M(P[2]) if P[0] == 0 else int(X[0] == X[1]) & M(P[2]), int(X[0] < X[1])]),
     'EqualConstant': (lambda P, X: P[1] == 1 and X[0] <= M(P[0]) and 0 <= P[2] <= M(P[0]), lambda P, X: [int(X[0] == P[2])]),
     'EqualConstantWrap': (lambda P, X: P[1] == 1 and X[0] <= M(P[0]),
                           lambda P, X: [(int(X[0] == 0) if P[2] == 0 else int(X[0] == 1)) if P[0] == 1 else int(X[0] == P[2] % (1 << P[0]))]),
@@ -325,21 +361,57 @@ def build(case):
     return sysobj, sim, ins, outs
 
 
-def run_real(case, vectors):
+HIST_N = 40          # vectors per re-ordering of the history pass
+
+
+def run_real(case, vectors, hist_rng=None, anomalies=None):
+    """one instance, the vectors one after the other (every 5th step through clk(1), the others through propagateAll()).
+    With `hist_rng`: afterwards the SAME instance is driven through further histories of the same vectors — descending order,
+    a seeded shuffle, and every vector preceded by the all-ones vector and followed by the all-zeros vector — and every output is
+    compared with the one observed for that vector in the first pass: a combinational block is a function of its current inputs.
+    Differences are appended to `anomalies` as (vector, output now, output in the first pass, the preceding vectors)."""
     b = build(case)
     if b[0] == 'E':
         return b
     sysobj, sim, ins, outs = b
     R = []
-    for n, X in enumerate(vectors):
+
+    def step(n, X):
         for w, v in zip(ins, X):
             w.put(v)
         if n % 5 == 4:
             sim.clk(1)
         else:
             sim.propagateAll()
-        R.append([o.get() for o in outs])
+        return [o.get() for o in outs]
+    for n, X in enumerate(vectors):
+        R.append(step(n, X))
+    if hist_rng is not None and len(vectors) > 1 and anomalies is not None:
+        first = {}
+        for X, o in zip(vectors, R):
+            first.setdefault(tuple(X), o)
+        idx = list(range(len(vectors)))
+        order = idx[::-1][:HIST_N] + hist_rng.shuffle(idx)[:HIST_N]
+        seq = [vectors[k] for k in order]
+        ones, zeros = case.fix([M(w) for w in case.inw]), [0] * len(case.inw)
+        if tuple(ones) in first and tuple(zeros) in first:
+            for k in hist_rng.shuffle(idx)[:HIST_N // 2]:
+                seq += [ones, vectors[k], zeros, vectors[k]]
+        trail = list(vectors[-3:])
+        for n, X in enumerate(seq):
+            o = step(n + len(vectors), X)
+            if o != first[tuple(X)]:
+                anomalies.append((list(X), o, first[tuple(X)], [list(t) for t in trail[-4:]]))
+                if len(anomalies) >= 3:
+                    break
+            trail.append(X)
     return R
+
+
+def fresh_output(case, X):
+    """the outputs of a FRESH instance evaluated for this single vector (replay aid: tells history effects from plain wrong values)"""
+    R = run_real(case, [X])
+    return None if (not R or R[0] == 'E') else R[0]
 
 
 # ------------------------------------------------------------------------------------------------
@@ -806,6 +878,117 @@ def dense_minterm_cases(tier, r):
     return C
 
 
+def outside_domain_cases(tier, r):
+    """parameters OUTSIDE the documented domain, checked against the exact characterisations (exact_kind): SumOfMinterms lists with
+    negative / too large / repeated entries (also dense after wrap-around), PriorityEncoder with every mix of input, helper and
+    output widths, comparator-like blocks with result wires of 2 and 3 bits"""
+    import itertools
+    C = []
+    for aw in ((1, 2, 3) if tier == 'quick' else (1, 2, 3, 4)):
+        n = 1 << aw
+        full = list(range(n))
+        lists = [[-1], [n], [n + 1, 1], [-2, 0], full + [n], [m + n for m in full[:n // 2 + 1]], [-(m + 1) for m in range(n - 1)],
+                 [m - n for m in full[1:]], [3 * n + 1, 1 - n, 1], [0, 0, n, n], [n - 1, -1, 2 * n - 1]]
+        for size in (1, 2, n // 2 + 1, n, n + 2):
+            lists.append([r.randint(-2 * n, 3 * n) for _ in range(size)])
+        seen = set()
+        for ms in lists:
+            if tuple(ms) not in seen:
+                seen.add(tuple(ms))
+                C.append(mk('SumOfMinterms', aw=aw, rw=1, ms=list(ms)))
+        C.append(mk('SumOfMinterms', aw=aw, rw=2, ms=[n - 1, -n]))
+        for rw in (2, 3):
+            for v in range(-1, n + 2):
+                C.append(mk('EqualConstant', aw=aw, rw=rw, v=v))
+                C.append(mk('NotEqualConstant', aw=aw, rw=rw, v=v))
+        for v in (-1, n, n + 1, -n):
+            C.append(mk('NotEqualConstant', aw=aw, rw=1, v=v))
+    for w in (0, 1, 2, 3):
+        for gw, ew in ((1, 2), (2, 1), (2, 2), (3, 3), (1, 3)):
+            C.append(mk('Comparator', w=w, gw=gw, ew=ew))
+    for n in ((2, 3) if tier == 'quick' else (2, 3, 4)):
+        for ws in itertools.product((1, 2) if (n >= 3 and tier == 'quick') or n >= 4 else (1, 2, 3), repeat=n):
+            for rw in (1, 2, 3):
+                for inc in (True, False):
+                    C.append(mk('PriorityEncoder', ws=list(ws), rw=rw, inc=inc))
+    C.append(mk('PriorityEncoder', ws=[1, 8, 8], rw=8, inc=False))
+    C.append(mk('PriorityEncoder', ws=[8, 8, 1], rw=8, inc=True))
+    C.append(mk('PriorityEncoder', ws=[4, 8, 8], rw=6, inc=False))
+    return C
+
+
+def degenerate_cases():
+    """the smallest parameters of every block: widths 1 (and 0 where a 0-bit wire can be passed), arities 0 and 1, single outputs;
+    whatever the real constructor does (build / raise) must be matched by the model and its legality predicate"""
+    C = []
+    add = lambda kind_, **a: C.append(mk(kind_, **a))
+    for w in (0, 1):
+        for k in ('Not', 'Buf'):
+            add(k, rw=w, aw=w)
+            add(k, rw=1, aw=w)
+        for k in ('And2', 'Or2', 'Nand2', 'Nor2', 'Xor2'):
+            add(k, rw=w, aw=w, bw=w)
+            add(k, rw=1, aw=w, bw=1)
+        for k in ('And', 'Or', 'Xor', 'Nor'):
+            for n in (0, 1, 2, 3):
+                add(k, rw=w, ws=[w] * n)
+        add('Equal', rw=1, aw=w, bw=w)
+        add('Repeat', rw=w)
+        add('Constant', rw=w, v=0)
+        add('Constant', rw=w, v=1)
+        add('BufEnable', aw=w, enw=1, rw=w)
+        add('BufEnable', aw=w, enw=w, rw=w)
+        add('BitsLSBF', aw=w)
+        add('BitsMSBF', aw=w)
+        add('Bit', rw=1, k=0, aw=w)
+        add('Range', rw=1, hi=0, lo=0, aw=w)
+        add('AndBits', aw=w, rw=1)
+        add('OrBits', aw=w, rw=1)
+        add('Mux2', rw=w, sw=1, w0=w, w1=w)
+        add('Mux2', rw=1, sw=w, w0=1, w1=1)
+        add('Mux', rw=w, sw=1, ws=[w, w])
+        add('Mux', rw=1, sw=w, ws=[1] * (1 << w))
+        add('Demux', aw=w, sw=1, n=2)
+        add('Demux', aw=1, sw=w, n=1 << w)
+        add('Decoder', aw=w, n=1)
+        add('Decoder', aw=w, n=0)
+        for k in ('Select', 'OneHotMux'):
+            add(k, rw=w, ns=1, ws=[w])
+            add(k, rw=w, ns=0, ws=[])
+        add('OneHotDemux', aw=w, ns=1, ows=[w])
+        add('OneHotDemux', aw=w, ns=0, ows=[])
+        add('SelectDefault', rw=w, ns=1, ws=[w], dw=w)
+        add('SelectDefault', rw=w, ns=0, ws=[], dw=w)
+        for inc in (True, False):
+            add('PriorityEncoder', ws=[w], rw=w, inc=inc)
+            add('PriorityEncoder', ws=[], rw=w, inc=inc)
+            add('PriorityEncoder', ws=[w, w], rw=w, inc=inc)
+        add('Minterm', rw=1, n=w, v=0)
+        add('Minterm', rw=1, n=w, v=1)
+        add('SumOfMinterms', aw=w, rw=1, ms=[0])
+        add('SumOfMinterms', aw=w, rw=1, ms=[])
+        add('SumOfMinterms', aw=w, rw=1, ms=[1])
+        for k in ('EqualConstant', 'NotEqualConstant'):
+            for v in (0, 1):
+                add(k, aw=w, rw=1, v=v)
+        add('AnyEqual', rw=1, ws=[w])
+        add('AnyEqual', rw=1, ws=[w, w])
+        add('AnyEqual', rw=1, ws=[])
+        add('Comparator', w=w, gw=1, ew=1)
+        add('ComparatorSignedUnsigned', w=w)
+        for k in ('Max2', 'Min2', 'SignedMax2', 'SignedMin2'):
+            add(k, w=w, rw=w)
+            add(k, w=w, rw=1)
+        add('Swap', raw=w, rbw=w, aw=w, bw=w, sw=1)
+        add('Swap', raw=1, rbw=1, aw=1, bw=1, sw=w)
+        for k in ('ConcatenateMSBF', 'ConcatenateLSBF'):
+            add(k, rw=w, ws=[w])
+            add(k, rw=w, ws=[])
+            add(k, rw=2 * w, ws=[w, w])
+            add(k, rw=1, ws=[0, 1, 0])
+    return C
+
+
 WIDE_WIDTHS = [63, 64, 65, 96, 128]        # 63/64 = controls, 65/96/128 = beyond one machine word
 
 
@@ -880,30 +1063,86 @@ def wide_vectors(case, r, n_extra):
     return vs
 
 
+def exact_kind(case):
+    """constructor calls whose parameters lie outside the documented domain of the block's `_spec` theorem (result wire wider than
+    1 bit, constants outside [0, 2^width), outputs wider than the most prioritised input) are checked against the EXACT
+    characterisation instead (…W / …Wrap kinds of Lib.Dyn: same model function, same constructor call, `_wide` / `_wrap` /
+    `_general` theorems) — so a source change that only shows there still yields a concrete failing input"""
+    k, P = case.kind, case.P
+    nk = None
+    if k == 'PriorityEncoder' and P[1] > P[0]:
+        nk = 'PriorityEncoderW'
+    elif k == 'SumOfMinterms' and not all(0 <= m <= M(P[0]) for m in P[2:]):
+        nk = 'SumOfMintermsWrap'
+    elif k in ('EqualConstant', 'EqualConstantWrap') and P[1] != 1:
+        nk = 'EqualConstantW'
+    elif k == 'NotEqualConstant' and (P[1] != 1 or not (0 <= P[2] <= M(P[0]))):
+        nk = 'NotEqualConstantW'
+    elif k == 'Equal' and P[2] != 1:
+        nk = 'EqualW'
+    elif k == 'Comparator' and (P[1] != 1 or P[2] != 1):
+        nk = 'ComparatorW'
+    if nk:
+        case.kind = nk
+    return case
+
+
 def out_of_range_alt(case, X):
-    """constructor calls with a constant outside [0, 2^width) (proposed finding C08-equalconstant-out-of-range): the
-    literal reading of the documentation ("active when a == v", i.e. never for such v).  None for every other case.
-    The check accepts today's behaviour (the model), a constructor that rejects such constants, or this literal
-    behaviour — so it keeps passing if the defect gets fixed either way."""
+    """constructor calls outside the documented domain (a constant outside [0, 2^width): finding C08-equalconstant-out-of-range;
+    a result wire wider than 1 bit: candidate C08-equal-wide-result; PriorityEncoder outputs wider than the first prioritised
+    input): the LITERAL reading of the documentation ("active when a == v", 0/1 on any width, bitwise priority).  None for every
+    other case.  The check accepts today's behaviour (the exact characterisation), a constructor that rejects such parameters,
+    or this literal behaviour — so it keeps passing if the defect gets fixed either way."""
     k, P = case.kind, case.P
     if k in ('EqualConstant', 'EqualConstantWrap', 'NotEqualConstant') and not (0 <= P[2] <= M(P[0])):
         return [int((X[0] == P[2]) != (k == 'NotEqualConstant'))]
+    if k in ('EqualConstantW', 'NotEqualConstantW') and P[1] >= 1:
+        return [int((X[0] == P[2]) != (k == 'NotEqualConstantW'))]
     if k == 'Decoder' and P[1] > (1 << P[0]):
         return [int(i == X[0]) for i in range(P[1])]
-    if k == 'SumOfMinterms' and not all(0 <= m <= M(P[0]) for m in P[2:]):
+    if k in ('SumOfMinterms', 'SumOfMintermsWrap') and not all(0 <= m <= M(P[0]) for m in P[2:]):
         return [int(any(X[0] == m for m in P[2:]))]
+    if k == 'EqualW' and P[2] >= 1:
+        return [int(X[0] == X[1])]
+    if k == 'ComparatorW' and P[1] >= 1 and P[2] >= 1:
+        return [int(X[0] > X[1]), int(X[0] == X[1]), int(X[0] < X[1])]
+    if k == 'PriorityEncoderW':
+        return _prio(P, X)
     return None
+
+
+def literal_everywhere(case, vectors, R):
+    """the block follows the LITERAL reading of its documentation on EVERY vector of this case although the parameters are
+    outside the documented domain, and that differs from today's exact characterisation somewhere: a consistent repair of the
+    finding (accepted).  A block that is literal on some vectors and not on others is not a repair: it is compared vector by
+    vector with the exact characterisation."""
+    if not vectors or out_of_range_alt(case, vectors[0]) is None:
+        return False
+    dom, spec = SPEC[case.kind]
+    differs = False
+    for X, out in zip(vectors, R):
+        if not dom(case.P, X):
+            continue                      # nothing is specified there (e.g. Equal with b outside the range of a)
+        if out_of_range_alt(case, X) != out:
+            return False
+        if spec(case.P, X) != out:
+            differs = True
+    return differs
 
 
 # ------------------------------------------------------------------------------------------------
 class Batch:
     """real runs now, driver requests queued; compare() after the driver answered"""
 
-    def __init__(self, res):
-        self.res, self.items = res, []
+    def __init__(self, res, rng=None):
+        self.res, self.items, self.rng, self.anom = res, [], rng, {}
 
     def add(self, case, mode, vectors):
-        R = run_real(case, vectors)
+        exact_kind(case)
+        an = []
+        R = run_real(case, vectors, self.rng.fork(('hist', len(self.items))) if self.rng else None, an)
+        if an:
+            self.anom[len(self.items)] = an
         P = ','.join(str(p) for p in case.P)
         if mode == 'all':
             req = f"{case.kind} | {P} | all {','.join(str(w) for w in case.inw)}"
@@ -914,24 +1153,38 @@ class Batch:
     def oracle(self):
         """the property's oracle on the real outputs (python transcription of the spec) — independent of the Lean build"""
         res = self.res
-        for case, mode, vectors, R, req in self.items:
+        for ii, (case, mode, vectors, R, req) in enumerate(self.items):
             if R and R[0] == 'E':
                 continue
             dom, spec = SPEC[case.kind]
             indom = 0
-            for X, out in zip(vectors, R):
+            if literal_everywhere(case, vectors, R):
+                res.hist('out_of_range_constant', 'literal behaviour on every vector (fixed?)')
+                continue
+            for n, (X, out) in enumerate(zip(vectors, R)):
                 if not dom(case.P, X):
                     continue
                 indom += 1
                 exp = spec(case.P, X)
-                if exp != out and out_of_range_alt(case, X) == out:
-                    res.hist('out_of_range_constant', 'literal behaviour (fixed?)')
-                    continue
                 if exp != out:
                     fail(res, f'{case.real} output differs from its truth table',
-                             dict(case.summary(), inputs=X, expected=exp, observed=out, block_kind=case.kind))
+                             dict(case.summary(), inputs=X, expected=exp, observed=out, block_kind=case.kind,
+                                  same_instance_previous_inputs=[list(v) for v in vectors[max(0, n - 4):n]],
+                                  fresh_instance_output=fresh_output(case, X)))
                     break
             res.hist('in_domain_vectors', case.kind, indom)
+            # history pass: the same instance, the same vectors in other orders — the output is a function of the current inputs
+            for X, now, first, trail in self.anom.get(ii, [])[:1]:
+                res.hist('history_dependence', case.kind)
+                if dom(case.P, X):
+                    exp = spec(case.P, X)
+                    fail(res, f'{case.real} output depends on the earlier inputs of the same instance',
+                         dict(case.summary(), inputs=X, expected=exp, observed=now, observed_first_visit=first,
+                              same_instance_previous_inputs=trail, fresh_instance_output=fresh_output(case, X),
+                              block_kind=case.kind))
+                else:
+                    res.disagree('history-dependence', dict(case.summary(), inputs=X, observed=now, observed_first_visit=first,
+                                                            same_instance_previous_inputs=trail))
 
     def compare(self, answers):
         res = self.res
@@ -957,13 +1210,13 @@ class Batch:
             if len(items) != len(vectors):
                 res.disagree('model-vs-real', dict(case.summary(), request=req[:200], lean=ans[:200], what='answer count'))
                 continue
+            lit = literal_everywhere(case, vectors, R)
             for X, out, it in zip(vectors, R, items):
                 m, _, s = it.partition('#')
                 model = [int(x) for x in m.split(',') if x != '']
                 lspec = None if s == '-' else (model if s == '' else [int(x) for x in s.split(',') if x != ''])
-                if model != out and out_of_range_alt(case, X) == out:
-                    res.hist('out_of_range_constant', 'literal behaviour (fixed?)')
-                    continue
+                if lit:
+                    out = model          # consistently literal (a repair of the finding): only the spec transcription is compared
                 if model != out:
                     res.disagree('model-vs-real', dict(case.summary(), inputs=X, python=out, lean=model))
                     break
@@ -1001,6 +1254,26 @@ def known_witnesses(res):
             rep = dict(c.summary(), inputs=[a], constant=v, expected=[int(a == v)], observed=R[0], block_kind='EqualConstant',
                        constant_out_of_range=True)
             fail(res, 'EqualConstant with a constant outside [0, 2^width) is active for some input', rep)
+    # candidates (notes/C08.md, not listed: recorded in the evidence only, the integrator decides) — re-derived on the real code
+    import common
+    listed = {k.get('id') for k in load_known()}
+    for cid, c, X, lit, what in (
+            ('C08-equal-wide-result', mk('Equal', aw=2, bw=2, rw=2), [1, 2], [0],
+             'Equal / EqualConstant(1 bit, 0) / NotEqualConstant with a result wire wider than 1 bit end in a Not/Nor on the full '
+             'width: unequal operands give 2^rw - 2, a non-zero ("active") result'),
+            ('C08-mux-zero-select', mk('Mux', rw=1, sw=0, ws=[1]), [0, 1], [1],
+             'Mux with a 0-bit select and one input is accepted and builds nothing: r is never driven (reads 0), not ins[0]'),
+            ('C08-priorityencoder-narrow-first', mk('PriorityEncoder', ws=[1, 2, 2], rw=2, inc=False), [0, 2, 2], [0, 2, 0],
+             'PriorityEncoder whose most prioritised input is narrower than the outputs: the other outputs lose their bits above '
+             'that width (helper wires sized by the first prioritised input)')):
+        R = run_real(c, [X])
+        if R and R[0] != 'E' and R[0] != lit:
+            rep = dict(c.summary(), inputs=X, literal_reading=lit, observed=R[0], block_kind=c.kind, candidate=cid)
+            if cid in listed:
+                fail(res, what, rep)
+            else:
+                res.notes.append({'candidate_finding': cid, 'what': what, 'witness': rep})
+                res.hist('candidate_findings_reproduced', cid)
     # C08-priorityencoder-docstring: documentation finding, checked by reading the docstring
     doc = py4hw.PriorityEncoder.__init__.__doc__ or ''
     c = mk('PriorityEncoder', ws=[1, 1], rw=1, inc=True)
@@ -1031,7 +1304,7 @@ def main(res, tier, rng, replay):
 
     limit = 12
     batches = []
-    b = Batch(res)
+    b = Batch(res, rng.fork('history'))
     nb = D.NetBatch(res, 'net-sim')
     r = rng.fork('c08')
     cases = small_cases(tier)
@@ -1059,6 +1332,13 @@ def main(res, tier, rng, replay):
     for dc in dense_minterm_cases(tier, r.fork('dense')):
         b.add(dc, 'all', all_vectors(dc.inw))
         res.hist('dense_minterm_lists', f'w{dc.P[0]}')
+    # parameters outside the documented domain (exact characterisations), degenerate parameters of every block: every input
+    for oc in outside_domain_cases(tier, r.fork('outside')) + degenerate_cases():
+        if sum(oc.inw) <= limit:
+            b.add(oc, 'all', all_vectors(oc.inw))
+        else:
+            b.add(oc, 'x', marker_vectors(oc, r.fork(('ov', len(b.items))), 20))
+        res.hist('outside_domain_or_degenerate', oc.kind)
     # list-shaped blocks over width lists with arithmetic coincidences (sum = n * w_k, permutations of a multiset, ...)
     cr = r.fork('coincidence')
     for ci2, cc in enumerate(coincidence_cases(tier)):
@@ -1143,11 +1423,14 @@ def main(res, tier, rng, replay):
     res.cov['rule'] = ('one case = one constructor call (block, all widths, arity, constants, options) x input set; small parameter '
                        'combinations are run on EVERY input combination (total input bits <= 12), wide/high-arity ones on structured '
                        'samples; each case: real py4hw block (Wire.put -> propagateAll()/clk(1) -> Wire.get) vs Lean model Lib.* vs '
-                       'specification Lib.LSpec.* (Lean, through Drv/C08) vs its Python transcription; evaluations = input vectors')
-    res.assumptions += ['output wires of comparators/decoders/minterms are 1 bit wide in the _spec theorems (wider outputs: model only)',
+                       'specification Lib.LSpec.* (Lean, through Drv/C08) vs its Python transcription; evaluations = input vectors; every case '
+                       'is followed by a history pass on the same instance (descending, shuffled, all-ones/x/zeros/x orders)')
+    res.assumptions += ['documented (0/1, a == v) reading: 1-bit result wires and constants inside [0, 2^width); outside, the oracle is the '
+                        'exact characterisation proved in Proofs/C08Wide.lean (kinds ...W / ...Wrap), or the literal reading when the block '
+                        'follows it on every vector of the case (a repaired finding)',
+                        'Decoder outputs modelled as 1-bit wires; PriorityEncoder with one common output width; Comparator eq wire >= 1 bit',
                         'mixed operand/result widths: specification only where the stated width hypotheses hold (see notes/C08.md)',
-                        'constants of EqualConstant/Minterm/SumOfMinterms/Decoder inside [0, 2^width) for the main specification; '
-                        'out-of-range constants follow equalConstant_wrap (proposed finding C08-equalconstant-out-of-range)']
+                        'Lib.*Legal = "the real constructor accepts": empirical (legal-vs-raises), its consequences are proved (*_of_legal)']
 
 
 OBLIGATIONS[:] = OBLIGATIONS_TXT.split()
